@@ -40,6 +40,10 @@ class Gen:
         self.next_cid = 1
         self.max_size = 70001
         self.max_depth = 6
+        # names that were removed earlier in this history: re-adding a name that
+        # existed (stale lookup caches, freed continuation gaps) is a workload class
+        self.removed = {'iso': [], 'joliet': [], 'udf': []}
+        self.removed_rr_lens = []
 
     # ---- configuration ------------------------------------------------------
     def cfg(self, index=None, require=None):
@@ -101,7 +105,9 @@ class Gen:
         r = self.rng
         u = b36(self._u()).lower()
         x = r.random()
-        if x < long_bias:
+        if self.removed_rr_lens and r.random() < 0.25:
+            n = max(1, r.choice(self.removed_rr_lens) + r.choice([-1, 0, 0, 1, 1, 2]))
+        elif x < long_bias:
             n = r.choice([90, 150, 199, 200, 201, 230, 248, 249, 250, 251, 252, 255, 256, 260, 300, 500])
         elif x < long_bias + 0.1:
             n = r.randint(60, 260)
@@ -166,6 +172,25 @@ class Gen:
             return '/'
         return r.choice(dirs)
 
+    def note_removed(self, before, after_model):
+        """before: {ns: {path: (kind, rr_name)}} snapshot taken before an accepted removal."""
+        for ns in ('iso', 'joliet', 'udf'):
+            for p, (kind, rrn) in before[ns].items():
+                if p not in after_model.ns[ns]:
+                    self.removed[ns].append((p, kind))
+                    if rrn:
+                        self.removed_rr_lens.append(len(rrn.encode('utf-8')))
+            del self.removed[ns][:-30]
+        del self.removed_rr_lens[:-30]
+
+    def reuse(self, model, ns, kind):
+        """A previously removed path of this namespace whose parent still exists and that is free."""
+        c = [p for p, k in self.removed[ns] if not model.exists(ns, p) and model.is_dir(ns, p.rsplit('/', 1)[0] or '/')
+             and (ns != 'iso' or model.depth(p) <= self.max_depth + (1 if kind == 'file' else 0))]
+        if not c or self.rng.random() > 0.3:
+            return None
+        return self.rng.choice(c)
+
     def op_add_fp(self, model, length=None, spread=None):
         """A file in the iso namespace and, by coin flips, in the others."""
         cfg = model.cfg
@@ -180,15 +205,15 @@ class Gen:
             want_iso = True
         if want_iso:
             parent = self.pick_dir(model, 'iso', self.max_depth)
-            op['iso_path'] = join(parent, self.iso_file_name(cfg.level))
+            op['iso_path'] = self.reuse(model, 'iso', 'file') or join(parent, self.iso_file_name(cfg.level))
             if cfg.rr:
                 op['rr_name'] = self.rr_name()
                 if r.random() < 0.5:
                     op['file_mode'] = r.choice([0o100444, 0o100644, 0o100755, 0o100600])
         if want_j:
-            op['joliet_path'] = join(self.pick_dir(model, 'joliet'), self.uni_name())
+            op['joliet_path'] = self.reuse(model, 'joliet', 'file') or join(self.pick_dir(model, 'joliet'), self.uni_name())
         if want_u:
-            op['udf_path'] = join(self.pick_dir(model, 'udf'), self.udf_name())
+            op['udf_path'] = self.reuse(model, 'udf', 'file') or join(self.pick_dir(model, 'udf'), self.udf_name())
         return op
 
     def op_add_directory(self, model, spread=None):
@@ -208,15 +233,15 @@ class Gen:
                 # prefer deepening
                 deep = [d for d in model.dirs('iso') if model.depth(d) <= self.max_depth - 1]
                 parent = max(deep, key=lambda d: (model.depth(d), d)) if r.random() < 0.5 else r.choice(deep)
-            op['iso_path'] = join(parent, self.iso_dir_name(cfg.level))
+            op['iso_path'] = self.reuse(model, 'iso', 'dir') or join(parent, self.iso_dir_name(cfg.level))
             if cfg.rr:
                 op['rr_name'] = self.rr_name(long_bias=0.08)
                 if r.random() < 0.5:
                     op['file_mode'] = r.choice([0o040555, 0o040755, 0o040700])
         if want_j:
-            op['joliet_path'] = join(self.pick_dir(model, 'joliet'), self.uni_name())
+            op['joliet_path'] = self.reuse(model, 'joliet', 'dir') or join(self.pick_dir(model, 'joliet'), self.uni_name())
         if want_u:
-            op['udf_path'] = join(self.pick_dir(model, 'udf'), self.udf_name())
+            op['udf_path'] = self.reuse(model, 'udf', 'dir') or join(self.pick_dir(model, 'udf'), self.udf_name())
         return op
 
     def _removable_files(self, model, ns):
